@@ -77,7 +77,7 @@ def families(tier):
                    defines=f.defines + ['VERIF_STREAMS', 'LIBAST_VERIF_BUFF_INC=4'], unwind=18,
                    cap=(120, 3) if q else (400, 12), note='BUFF_INC scaled to 4 (hook); payload crosses up to three chunk boundaries')
         kinds = (0, 1, 3, -1)
-        plens = (0, 1, 3, 4, 5, 8, 9) if q else tuple(range(0, 14))
+        plens = (0, 1, 3, 4, 5, 8, 9) if q else tuple(range(0, 13))       # the ideal-model text holds 12 characters
         for pl in plens:
             for k1 in kinds:
                 for k2 in ((0, -1) if q else kinds):
